@@ -266,6 +266,25 @@ def search(ctx, boost=1, focus=()):
         msgs_ = run_case("peaks", q)
         ctx.oracle_case("peaks", q, msgs_, key=classify("peaks", q, msgs_) if msgs_ else None,
                         nontrivial=(shape[0] % 2 == 1 or shape[1] % 2 == 1))
+    # the largest frame shapes of the stated range (127..130 px: correlation maps of more than 2**14 pixels), a disk on one of the
+    # two middle rows / columns of the frame (the zero-order disk of a centred pattern) among others
+    for k in range(4 * boost):
+        shape = [int(rng.integers(127, 131)), int(rng.integers(127, 131))]
+        pat = impl.pattern_params(rng, kinds=("circular", "radial_gradient", "background_subtraction"), rmin=3.0, rmax=6.0)
+        outer = pat.get("radius_outer", pat["radius"])
+        sep = outer + pat["radius"] + 4
+        mid = [shape[0] - shape[0] // 2 - (k % 2), shape[1] - shape[1] // 2 - ((k // 2) % 2)]
+        pts = [mid]
+        for q_ in place_disks(rng, shape, int(rng.integers(2, 7)), sep, int(np.ceil(sep))).tolist():
+            if all(np.hypot(q_[0] - p_[0], q_[1] - p_[1]) >= sep for p_ in pts):
+                pts.append(q_)
+        amps = (np.sort(rng.uniform(1, 2, len(pts)))[::-1] * np.cumprod(np.full(len(pts), 1 / 1.15))) * float(rng.uniform(1, 50))
+        amps = np.roll(amps, int(rng.integers(0, len(pts))))          # the middle disk has any rank
+        q = {"seed": int(rng.integers(1 << 30)), "pattern": pat, "shape": shape, "centres": pts, "amps": amps.tolist(),
+             "bg": float(rng.uniform(0, 5)), "ks": sorted({1, len(pts)})}
+        msgs_ = run_case("peaks", q)
+        ctx.oracle_case("peaks", q, msgs_, key=classify("peaks", q, msgs_) if msgs_ else None, nontrivial=True)
+        ctx.count("largest_shapes_middle_disk")
     # large RadialGradientBackgroundSubtraction disks in frames one pixel smaller than the pattern's own template array along an
     # odd axis (both orders of the axes, outer radius on / just below an integer): the template is cropped, not padded
     for k in range(4 * boost):
